@@ -24,7 +24,10 @@ MANIFEST = {
             'affine/projective/extended, secp256k1 projective: elements by input and by conversion, @ ~ == != if_else, '
             'repeat with public/secret base, public/shared exponents of both types secfld(order) and secint, secret and '
             'public output, vs the plain group; Coq model evaluated on the actual exponent shares (QR/Schnorr) and on the '
-            'exponent bits and compared exactly with the implementation output.',
+            'exponent bits and compared exactly with the implementation output. Aliasing stream: every list-taking '
+            'operation (repeat_public with list bases/exponents, output/input/mpctools.reduce of lists of secure group '
+            'elements; repeat with lists is rejected synchronously) is called, the caller\'s lists are mutated in place '
+            '(reverse/overwrite/del/append), then awaited; expected = plain result for the arguments at call time.',
     'note': 'Value/share-level model: group elements are abstract (operation/inversion/equality formulas on secure field '
             'coordinates are the plain fingroups formulas run on secure values — C27 for the formulas, C04 for the field '
             'protocols; not re-modelled here, covered by the simulator oracle). mpctools.reduce (tree) is modelled as a fold '
@@ -32,7 +35,8 @@ MANIFEST = {
             'resolve to that party\'s module copy (simulator artefact, /repo untouched). Secret-exponent repeat on elliptic '
             'curves only with SecInt(4) exponents (a 253-bit exponent takes > 90 s). Class groups / hyperelliptic curves '
             'not run (minutes per operation). Known findings: F-C28 (public base + shared secint exponent, m>1) and '
-            'Sym(n) over a lifted GF(n) (to_bits TypeError, root cause F-C04-1).',
+            'Sym(n) over a lifted sectype (to_bits TypeError, root cause F-C04-1), F-C28-3 (repeat_public reads its list '
+            'arguments only after the first await).',
     'technique': 'Coq proof over abstract group + multi-party simulator differential check vs plain group oracle and vm_compute share-level replay',
 }
 
@@ -185,6 +189,86 @@ def make_prog(spec, plan):
     return prog
 
 
+
+ALIAS_MUTATIONS = ['none', 'reverse', 'overwrite', 'del', 'append']
+
+
+def _mutate(lst, how, alt):
+    if how == 'reverse':
+        lst.reverse()
+    elif how == 'overwrite':
+        lst[0] = alt
+    elif how == 'del':
+        del lst[0]
+    elif how == 'append':
+        lst.append(alt)
+
+
+def make_alias_prog(spec):
+    """Aliasing stream: call an operation taking caller-owned lists, mutate the lists in place, THEN await.
+    Expected = plain group result for the arguments at call time."""
+    async def prog(mpc, mods, pid):
+        fg = mods['mpyc.fingroups']
+        mods['mpyc.runtime'].pickle = PickleShim(mods)
+        mpctools = mods['mpyc.mpctools']
+        G = mkgroup(fg, spec)
+        secgrp = mpc.SecGrp(G)
+        m = len(mpc.parties)
+        g, h, cyc, cord = elements(G, spec)
+        ident = G.identity
+        secfld = mpc.SecFld(cord)
+        out = []           # (label, ok, got, want)
+        bases = [cyc, cyc ^ 2, cyc ^ 3]
+        exps = [2, 3, 5]
+        want = (bases[0] ^ exps[0]) @ (bases[1] ^ exps[1]) @ (bases[2] ^ exps[2])
+
+        def shared_exps(vals):
+            return mpc.input([secfld(v if pid == 0 else 0) for v in vals], senders=0)
+        # 1. repeat_public(list of bases, list of shared exponents)
+        for which in ('x', 'a'):
+            for how in ALIAS_MUTATIONS:
+                a = list(bases)
+                x = shared_exps(exps)
+                alt = shared_exps([7])[0] if which == 'x' else cyc ^ 4
+                fut = secgrp.repeat_public(a, x)
+                _mutate(x if which == 'x' else a, how, alt)
+                got = await fut
+                out.append(('aliasing repeat_public arg=%s mutation=%s' % (which, how), bool(got == want), canon(got), canon(want)))
+        # 2. secgrp.repeat with lists (docstring: "possibly a, x are lists"): unsupported by the code => synchronous error
+        try:
+            a = list(bases)
+            x = shared_exps(exps)
+            r = secgrp.repeat(a, x)
+            a.reverse()
+            got = await mpc.output(r)
+            wl = [b ^ e for b, e in zip(bases, exps)]
+            out.append(('aliasing repeat(list,list) mutation=reverse', bool(list(got) == wl), [canon(v) for v in got], [canon(v) for v in wl]))
+        except (AssertionError, TypeError, AttributeError, ValueError) as exc:
+            out.append(('unsupported repeat(list,list): ' + type(exc).__name__, True, None, None))
+        # 3. output / input / reduce of lists of secure group elements
+        plain = [g, h, g @ h]
+        for how in ALIAS_MUTATIONS:
+            sec = mpc.input([secgrp(v if pid == 0 else ident) for v in plain], senders=0)
+            alt = secgrp(ident)
+            fut = mpc.output(sec)
+            _mutate(sec, how, alt)
+            got = await fut
+            out.append(('aliasing output(list) mutation=%s' % how, bool(list(got) == plain), [canon(v) for v in got], [canon(v) for v in plain]))
+            lst = [secgrp(v if pid == 0 else ident) for v in plain]
+            shared = mpc.input(lst, senders=0)
+            _mutate(lst, how, alt)
+            got = await mpc.output(shared)
+            out.append(('aliasing input(list) mutation=%s' % how, bool(list(got) == plain), [canon(v) for v in got], [canon(v) for v in plain]))
+            sec = mpc.input([secgrp(v if pid == 0 else ident) for v in plain], senders=0)
+            r = mpctools.reduce(secgrp.operation, sec)
+            _mutate(sec, how, alt)
+            got = await mpc.output(r)
+            wr = (g @ h) @ (g @ h)
+            out.append(('aliasing reduce(operation, list) mutation=%s' % how, bool(got == wr), canon(got), canon(wr)))
+        return {'out': out}
+    return prog
+
+
 def lagrange_at_zero(P, m):
     lams = []
     for i in range(1, m + 1):
@@ -232,6 +316,8 @@ def _run(ctx):
              ('ec', 'secp256k1', 'projective')]
     coq_exprs, coq_meta = [], []
     nout = 0
+    nalias = 0
+    alias_notes = set()
     for (m, t) in configs:
         for no_prss in (False, True):
             cfg = 'm=%d,t=%d,%s' % (m, t, 'noprss' if no_prss else 'prss')
@@ -315,8 +401,42 @@ def _run(ctx):
                             gg = canon_base(res, spec)
                             coq_exprs.append('zm_repeat_bits %s %s %s' % (zlit(pmod), zlit(gg), bits))
                             coq_meta.append(('bits', cfg, gname, lbl, x, got))
+            # aliasing stream: list-taking operations, caller's lists mutated between call and await
+            for spec in [('qr', 16), ('sg', 32, 16)] + ctx.n([], [('sym', 5), ('ec', 'Ed25519', 'extended')]):
+                gname = '%s(%s)' % (spec[0], ','.join(map(str, spec[1:])))
+                sim = Sim(m=m, t=t, no_prss=no_prss, seed=ctx.seed + 5 * m + 1, log_messages=False, track_tasks=False)
+                errs = []
+                sim.loop.set_exception_handler(lambda loop, c: errs.append(repr(c.get('exception') or c.get('message'))))
+                try:
+                    sim.start()
+                    res = sim.run(make_alias_prog(spec), idle_limit=10 ** 8 if m == 1 else 3000 if t > 0 else 50000)
+                    if all(isinstance(r, dict) for r in res):
+                        sim.shutdown()
+                finally:
+                    sim.close()
+                if not all(isinstance(r, dict) for r in res):
+                    ctx.violation('aliasing-program-failed %s %s' % (gname, cfg), {'cfg': cfg, 'group': gname,
+                                  'results': [repr(r)[:200] for r in res], 'loop_errors': errs[:3]})
+                    continue
+                for r in res[1:]:
+                    if r['out'] != res[0]['out']:
+                        ctx.violation('party-disagreement aliasing %s %s' % (gname, cfg), {'cfg': cfg, 'group': gname})
+                        break
+                for (lbl, okv, got, want) in res[0]['out']:
+                    nout += 1
+                    nalias += 1
+                    ctx.case({'cfg': cfg, 'group': gname, 'op': lbl}, kind='aliasing m=%d' % m)
+                    if lbl.startswith('unsupported'):
+                        alias_notes.add(lbl)
+                    if not okv:
+                        # sig starts with the operation: 'aliasing repeat_public ...' is the known late read (F-C28-3)
+                        ctx.violation('%s %s %s' % (lbl, gname, cfg), {'cfg': cfg, 'group': gname, 'op': lbl, 'got': got, 'want': want,
+                                      'program': 'fut = op(lists); mutate caller lists in place; await fut; expected = result for the arguments at call time'})
             ctx.log('%s: %d outputs checked so far' % (cfg, nout))
     ctx.extra['implementation_outputs_checked'] = nout
+    ctx.extra['aliasing_cases'] = nalias
+    for nt in sorted(alias_notes):
+        ctx.notes.append('aliasing stream: ' + nt + ' (secgrp.repeat does not accept lists despite its docstring; raised synchronously)')
     ctx.log('evaluating %d model expressions in Coq' % len(coq_exprs))
     if ok and coq_exprs:
         out = ctx.coq_eval(['MPyC.SecGrp'], coq_exprs, chunk=40)
